@@ -3,6 +3,8 @@
 package pipeline
 
 import (
+	"github.com/buildkite/go-pipeline/internal/env"
+	"encoding/json"
 	"github.com/buildkite/go-pipeline/warning"
 	"github.com/buildkite/go-pipeline/ordered"
 	"gopkg.in/yaml.v3"
@@ -212,4 +214,50 @@ func vpH_c08_fallback() {
 	ab, _ := vpJGet(mb, "adjustments")
 	a0 := vpJElem(ab, 0)
 	vpAssert(vpJLen(a0) == 3 && vpJKey(a0, 0) == "with" && vpJKey(a0, 1) == "soft_fail" && vpJKey(a0, 2) == "aa", "... at every depth")
+}
+
+func init() { vpRegister("c08_interp_order", vpH_c08_interp_order) }
+
+// Interpolation rewrites keys in place: a mapping nested in an unknown field
+// keeps its document order when some of its keys are renamed by env
+// interpolation or by matrix interpolation - renamed keys first, in the
+// middle or last, next to keys that stay as they are.
+func vpH_c08_interp_order() {
+	v := vpStr(1, "x-z")
+	matrixLeg := vpBool()
+	tok := "$A"
+	if matrixLeg {
+		tok = "{{matrix}}"
+	}
+	// which of the four keys carry a token
+	var keys, want []string
+	for i, base := range []string{"k", "p", "m", "l"} {
+		if vpBool() {
+			keys, want = append(keys, base+tok), append(want, base+v)
+		} else {
+			keys, want = append(keys, base), append(want, base)
+		}
+		_ = i
+	}
+	om := vpMapOf(keys[0], "1", keys[1], tok, keys[2], vpMapOf("in"+tok, "2", "z", "3"), keys[3], "4")
+	step := &CommandStep{Command: "c", RemainingFields: map[string]any{"agents": om}}
+	if matrixLeg {
+		step.Matrix = &Matrix{Setup: MatrixSetup{"": {v}}}
+		vpAssert(step.InterpolateMatrixPermutation(MatrixPermutation{"": v}) == nil, "the permutation applies")
+	} else {
+		p := &Pipeline{Steps: Steps{step}}
+		vpAssert(p.Interpolate(env.New(env.FromMap(map[string]string{"A": v})), false) == nil, "the pipeline interpolates")
+	}
+	b, err := json.Marshal(step)
+	vpAssert(err == nil, "the step marshals")
+	ab, has := vpJGet(b, "agents")
+	vpAssert(has && vpJLen(ab) == 4, "the nested mapping keeps its four entries")
+	if !has || vpJLen(ab) != 4 {
+		return
+	}
+	for i := range want {
+		vpAssert(vpJKey(ab, i) == want[i], "a nested mapping keeps document order through interpolation, whichever of its keys are renamed")
+	}
+	in := vpJElem(ab, 2)
+	vpAssert(vpJLen(in) == 2 && vpJKey(in, 0) == "in"+v && vpJKey(in, 1) == "z", "... at every depth")
 }
